@@ -264,6 +264,10 @@ pub fn run(a: &Args) {
     }
     let mut done = 0;
     while done < a.n {
+        if crate::l2::timeouts() >= crate::l2::ENOUGH_TIMEOUTS {
+            sink.count("stopped-early-after-timeouts");
+            break;
+        }
         let (c, s) = if thorough {
             *rng.pick(&[(0u32, 4096u32), (4096, 0), (0, 4097), (4100, 8192), (0, 5000), (0, 16384), (0, 131072)])
         } else {
